@@ -393,8 +393,11 @@ func (ex *Exec) applyGhostUpdateX(g *Clause, st *State, pt *progPoint, guard str
 		}
 		break
 	}
-	if len(ex.vc.errs) > nerr && cond != "" {
-		// names not available on this path: the guarded update does not apply here
+	if len(ex.vc.errs) > nerr {
+		// names not available on this path: the update does not apply here (reported as a warning by `gvc func`)
+		for _, e := range ex.vc.errs[nerr:] {
+			ex.vc.warns = append(ex.vc.warns, fmt.Sprintf("%s: ghost update skipped on one path: %s", g.Src, e))
+		}
 		ex.vc.errs = ex.vc.errs[:nerr]
 		return
 	}
